@@ -5,7 +5,7 @@ CONSTANTS
   P = 2
   VALS = {0, 1, 2}
   HMS = {0}
-  KNOWN = {"size-hint-upper-below-remaining-while-future-in-flight"}
+  KNOWN = {}
   EMIT = FALSE
 INVARIANTS C11Model ImplInv Emit
 CHECK_DEADLOCK TRUE
